@@ -13,6 +13,7 @@ import core
 REQUIRED_THEOREMS = [
     'C20_row_routing', 'C20_row_routing_pd', 'C20_row_routing_pk', 'C20_row_routing_sound',
     'C20_row_routing_pd_legacy_partial', 'C20_ids_nodup', 'C20_row_in_own_trace',
+    'C20_dose_and_measurement_row', 'C20_split_dose_rows_counterexample',
     'C20_pd_nonnumeric_id_counterexample', 'C20_pdpredictive_default_nan_counterexample',
     'C20_falsy_observable_counterexample', 'C20_palette_every_individual', 'C20_palette_zip_counterexample', 'C20_prediction_scatter', 'C20_simulation', 'C20_prediction_dose', 'C20_band_encloses_any',
     'C20_band_encloses', 'C20_band_encloses_robust', 'C20_band_limits_are_samples', 'C20_band_nested',
@@ -22,12 +23,15 @@ REQUIRED_THEOREMS = [
     'C20_residual_routing', 'C20_residual_completes', 'C20_residual_legacy_partial',
     'C20_residual_readonly_counterexample']
 RULE = ('routing: long-format frames with 1-10 or (30 % of the frames) 11-26 individuals, i.e. more than any fixed-size table of chi.plots, (IDs int / float / str, some missing), 1-3 '
-        'observables, interleaved rows, dose rows, missing values in every column, custom column keys, '
+        'observables, interleaved rows, dose rows, in 45 % of the frames measurements recorded ON dose rows (some or all of an '
+        'observable), missing values in every column, custom column keys, every key column stored as float64 / int64 '
+        '(where all entries are whole numbers) / object, '
         'shuffled index, default / explicit / absent observable, all four figure classes + add_simulation; '
         'bands: 1-4 times on a grid, in 60 % of the sample sets with 1-4 further time points nearly coincident with '
         'one of them (1 ulp ... 1e-3 relative, next to zero down to the smallest subnormal; distinct doubles are '
         'distinct time points), location and spread of the samples differing between time points (70 %), '
-        '1-48 samples per time on a coarse grid (ties) or continuous, missing samples, '
+        '1-48 samples per time on a coarse grid (ties) or continuous, missing samples, time column float64 / int64 '
+        '(40 %: whole-number times, fractional samples) / object, value and dose columns float64 / object, '
         '1-7 bulk probabilities (dyadic, customary, random); residuals: measurement + prediction frames (IDs '
         'int / float / str / missing, missing times, integer-valued measurements, unmeasured observables), '
         'all flag combinations, every trace compared with an independent computation. non-trivial = >=2 individuals and >=2 observables (routing) / a tie or a '
@@ -187,13 +191,25 @@ def gen_frame(rng, force=None):
     p_miss = float(rng.choice([0.0, 0.0, 0.1, 0.25]))
     rows = []
     tgrid = np.arange(0, 33) * 0.25
+    # rows carrying BOTH a dose and a measurement (45 % of the frames): of some observables, a share or all
+    # of the measurements sit on dose rows
+    on_dose, q_on_dose = [], 0.0
+    if rng.random() < 0.45:
+        on_dose = [o for o in obs if rng.random() < 0.6] or [obs[0]]
+        q_on_dose = float(rng.choice([0.3, 0.6, 1.0]))
     for i in ids:
         for o in obs:
             if rng.random() < 0.15:
                 continue            # this individual has no measurement of this observable
             for t in rng.choice(tgrid, int(rng.integers(1, 4 if n_ids > 6 else 6)), replace=rng.random() < 0.3):
                 v = float(np.round(rng.uniform(0.1, 9.0), 3))
-                rows.append([i, float(t), o, v, None, None])
+                row = [i, float(t), o, v, None, None]
+                # a measurement recorded ON the row of a dosing event (trough / pre-dose concentration, the
+                # body weight taken when the dose is given): the row is a dose row AND a measurement row
+                if o in on_dose and rng.random() < q_on_dose:
+                    row[4] = float(rng.integers(1, 9))
+                    row[5] = float(rng.choice([0.01, 0.5, 1.0]))
+                rows.append(row)
         for _ in range(int(rng.integers(0, 3))):
             rows.append([i, float(rng.choice(tgrid)), None, None, float(rng.integers(1, 9)),
                          float(rng.choice([0.01, 0.5, 1.0]))])
@@ -214,30 +230,53 @@ def gen_frame(rng, force=None):
     if r < 0.3:
         index = [int(v) for v in rng.permutation(len(rows)) + 3]
     time_int = bool(rng.random() < 0.15)
+    # storage dtype of every key column: what the values are does not depend on how the column stores them
+    dtypes = {'time': 'int' if time_int else pick_dtype(rng, ('float', 'float', 'float', 'object')),
+              'value': pick_dtype(rng, ('float', 'float', 'float', 'object', 'int')),
+              'dose': pick_dtype(rng, ('float', 'float', 'float', 'object', 'int')),
+              'id': pick_dtype(rng, ('auto', 'auto', 'object')),
+              'obs': pick_dtype(rng, ('auto', 'auto', 'object'))}
     return {'id_kind': id_kind, 'rows': rows, 'keys': keys, 'index': index, 'time_int': time_int,
-            'extra_col': bool(rng.random() < 0.3), 'obs_kind': obs_kind}
+            'extra_col': bool(rng.random() < 0.3), 'obs_kind': obs_kind, 'dtypes': dtypes,
+            'on_dose': bool(on_dose)}
+
+
+def pick_dtype(rng, options):
+    return str(options[int(rng.integers(len(options)))])
+
+
+def num_column(values, dtype, scale=1):
+    """a numeric column stored as float64 / object (Python floats, NaN for missing) / int64 (only when every
+    entry is present and, times `scale`, a whole number; float64 otherwise)"""
+    if dtype == 'int' and all(v is not None and abs(v * scale - round(v * scale)) < 1e-6 for v in values):
+        return pd.Series([int(round(v * scale)) for v in values], dtype='int64')
+    if dtype == 'object':
+        return pd.Series([np.nan if v is None else float(v) for v in values], dtype=object)
+    return pd.Series([np.nan if v is None else v for v in values], dtype='float64')
 
 
 def build_frame(fr):
     k = fr['keys']
     rows = fr['rows']
+    dt = fr.get('dtypes') or {}
     cols = {}
     idv = [r[0] for r in rows]
-    if fr['id_kind'] == 'str':
+    if dt.get('id') == 'object':
+        cols[k['id_key']] = pd.Series([np.nan if v is None else v for v in idv], dtype=object)
+    elif fr['id_kind'] == 'str':
         cols[k['id_key']] = pd.Series([np.nan if v is None else v for v in idv], dtype='str' if all(
             v is not None for v in idv) else None)
     else:
         cols[k['id_key']] = pd.Series([np.nan if v is None else v for v in idv])
     tv = [r[1] for r in rows]
-    if fr['time_int'] and all(v is not None for v in tv):
-        cols[k['time_key']] = pd.Series([int(v * 4) for v in tv], dtype='int64')
-    else:
-        cols[k['time_key']] = pd.Series([np.nan if v is None else v for v in tv], dtype='float64')
-    cols[k['obs_key']] = pd.Series([np.nan if r[2] is None else r[2] for r in rows])
-    cols[k['value_key']] = pd.Series([np.nan if r[3] is None else r[3] for r in rows], dtype='float64')
-    cols[k['dose_key']] = pd.Series([np.nan if r[4] is None else r[4] for r in rows], dtype='float64')
-    cols[k['dose_duration_key']] = pd.Series([np.nan if r[5] is None else r[5] for r in rows],
-                                             dtype='float64')
+    cols[k['time_key']] = num_column(tv, 'int' if fr['time_int'] else dt.get('time', 'float'), 4)
+    cols[k['obs_key']] = pd.Series([np.nan if r[2] is None else r[2] for r in rows],
+                                   dtype=object if dt.get('obs') == 'object' else None)
+    # whole-number measurements / doses stored as integers: values times 1000 (mg -> ug), doses as they are
+    cols[k['value_key']] = num_column([r[3] for r in rows], dt.get('value', 'float'), 1000)
+    cols[k['dose_key']] = num_column([r[4] for r in rows], dt.get('dose', 'float'))
+    cols[k['dose_duration_key']] = num_column([r[5] for r in rows],
+                                              'object' if dt.get('dose') == 'object' else 'float')
     df = pd.DataFrame(cols)
     if fr['extra_col']:
         df['note'] = ['n%d' % j for j in range(len(rows))]
@@ -388,6 +427,15 @@ def routing_case(ctx, chi, fr, observable_mode, k, observable=_UNSET):
                         'ids>10' if n_ind > 10 else 'ids%d' % min(n_ind, 3))
     ctx.case('routing:' + cls, nontrivial=('routing:%s/obs%d' % (cls, len(obt))) if n_ind >= 2 and len(obt) >= 2
              else False, sample=inp)
+    if spec is not None:
+        both = sum(1 for r in srows if r[4] is not None and r[2] is not None and r[2] == spec[0])
+        total = sum(1 for r in srows if r[2] is not None and r[2] == spec[0])
+        if both:
+            ctx.nontrivial.add('routing:measurement-on-dose-row/%s/%s' % (
+                fr['id_kind'], 'all' if both == total else 'some'))
+        ctx.branches.add('dose+measurement rows:' + ('none' if not both else 'all' if both == total else 'some'))
+    for a_ in ('id_key', 'time_key', 'obs_key', 'value_key', 'dose_key', 'dose_duration_key'):
+        ctx.branches.add('dtype:%s:%s' % (a_, df[keys[a_]].dtype))
     mspec = ctx.model('C20.spec', w, obs_code)
     pdkeys = {a: keys[a] for a in ('id_key', 'time_key', 'obs_key', 'value_key')}
     for name in ('PDTimeSeriesPlot', 'PDPredictivePlot', 'PKTimeSeriesPlot', 'PKPredictivePlot'):
@@ -530,9 +578,20 @@ def near_time(rng, t):
 
 def gen_samples(rng):
     n_times = int(rng.integers(1, 5))
-    times = [float(t) for t in np.sort(rng.choice(np.arange(0, 40) * 0.5, n_times, replace=False))]
+    # storage dtype of the key columns; an integer time column (times from range / np.arange / whole-number
+    # times read from a file) has whole-number times and, of course, samples that are not whole numbers
+    dtypes = {'time': pick_dtype(rng, ('float', 'float', 'int', 'int', 'object')),
+              'value': pick_dtype(rng, ('float', 'float', 'float', 'object')),
+              'dose': pick_dtype(rng, ('float', 'float', 'object', 'int')),
+              'obs': pick_dtype(rng, ('auto', 'auto', 'object'))}
+    if dtypes['time'] == 'int':
+        times = [float(t) for t in np.sort(rng.choice(np.arange(0, 40), n_times, replace=False))]
+    else:
+        times = [float(t) for t in np.sort(rng.choice(np.arange(0, 40) * 0.5, n_times, replace=False))]
     # time axis: well separated grid points, or (regularly) clusters of 2-3 nearly coincident, distinct points
     tmode = ['plain', 'plain', 'near', 'near', 'near'][int(rng.integers(5))]
+    if dtypes['time'] == 'int':
+        tmode = 'plain'
     if tmode == 'near':
         for t in [times[int(j)] for j in rng.choice(len(times), int(rng.integers(1, min(2, len(times)) + 1)),
                                                      replace=False)]:
@@ -584,7 +643,7 @@ def gen_samples(rng):
     if rng.random() < 0.5:
         lab = ['main', 'other']
     return {'rows': rows, 'doses': doses, 'ps': ps, 'mode': mode, 'tmode': tmode, 'keys': keys,
-            'labels': {'main': lab[0], 'other': lab[1]},
+            'labels': {'main': lab[0], 'other': lab[1]}, 'dtypes': dtypes,
             'index': [int(v) for v in rng.permutation(len(rows) + len(doses)) + 1] if rng.random() < 0.3 else None}
 
 
@@ -596,13 +655,15 @@ def build_pred_frame(g):
     k = g['keys']
     rows = [[r[0], None if r[1] is None else band_label(g, r[1]), r[2]] for r in g['rows']]
     nd = len(g['doses'])
+    dt = g.get('dtypes') or {}
     df = pd.DataFrame({
-        k['time_key']: pd.Series([r[0] for r in rows] + [d[0] for d in g['doses']], dtype='float64'),
-        k['obs_key']: pd.Series([np.nan if r[1] is None else r[1] for r in rows] + [np.nan] * nd),
-        k['value_key']: pd.Series([np.nan if r[2] is None else r[2] for r in rows] + [np.nan] * nd,
-                                  dtype='float64'),
-        k['dose_key']: pd.Series([np.nan] * len(rows) + [d[1] for d in g['doses']], dtype='float64'),
-        k['dose_duration_key']: pd.Series([np.nan] * len(rows) + [d[2] for d in g['doses']], dtype='float64'),
+        k['time_key']: num_column([r[0] for r in rows] + [d[0] for d in g['doses']], dt.get('time', 'float')),
+        k['obs_key']: pd.Series([np.nan if r[1] is None else r[1] for r in rows] + [np.nan] * nd,
+                                dtype=object if dt.get('obs') == 'object' else None),
+        k['value_key']: num_column([r[2] for r in rows] + [None] * nd, dt.get('value', 'float')),
+        k['dose_key']: num_column([None] * len(rows) + [d[1] for d in g['doses']], dt.get('dose', 'float')),
+        k['dose_duration_key']: num_column([None] * len(rows) + [d[2] for d in g['doses']],
+                                           'object' if dt.get('dose') == 'object' else 'float'),
     })
     if g['index'] is not None:
         df.index = g['index']
@@ -659,6 +720,11 @@ def band_case(ctx, chi, g, k):
     ctx.case('band:%s/np%d' % (g['mode'], len(g['ps'])),
              nontrivial=('band:near-times/%s/%s' % (g['mode'], gcls)) if gcls != 'none' else False, sample=inp)
     ctx.branches.add('time-gap:' + gcls)
+    for a_ in ('time_key', 'obs_key', 'value_key', 'dose_key', 'dose_duration_key'):
+        ctx.branches.add('band dtype:%s:%s' % (a_, df[keys[a_]].dtype))
+    if str(df[keys['time_key']].dtype).startswith('int') and any(
+            x is not None and not float(x).is_integer() for v in samples.values() for x in v):
+        ctx.nontrivial.add('band:integer-time-column/fractional-samples/%s' % g['mode'])
     wrows = [[None if r[0] is None else bits(r[0]), r[2]] for r in g['rows'] if r[1] == 'main']
     mb = ctx.model('C20.bands', wrows, g['ps'])
     # the samples of a time point are those of the rows with exactly that time: the comprehension above
@@ -839,7 +905,13 @@ def gen_residual(rng):
     obs_kind, obs = label_pool(rng, int(rng.integers(1, 4)))
     if rng.random() < 0.3:
         ids[int(rng.integers(len(ids)))] = {'int': 0, 'float': 0.0, 'str': ''}[id_kind]
-    tgrid = [float(t) for t in np.arange(0, 8) * 0.5]
+    # storage dtype of the time / value columns of the two frames (int64: whole-number times)
+    dtypes = {'mtime': pick_dtype(rng, ('float', 'float', 'int', 'object')),
+              'ptime': pick_dtype(rng, ('float', 'float', 'int', 'object')),
+              'mvalue': pick_dtype(rng, ('float', 'float', 'object')),
+              'pvalue': pick_dtype(rng, ('float', 'float', 'object'))}
+    whole = 'int' in (dtypes['mtime'], dtypes['ptime'])
+    tgrid = [float(t) for t in np.arange(0, 8) * (1.0 if whole else 0.5)]
     int_values = bool(rng.random() < 0.2)
     meas = []
     for i in ids:
@@ -881,7 +953,7 @@ def gen_residual(rng):
                                          ('zz' if id_kind == 'str' else 999))
     keys = dict(KEYSETS[int(rng.choice([0, 0, 1]))])
     return {'id_kind': id_kind, 'meas': meas, 'pred': pred, 'flags': list(flags), 'observable': observable,
-            'individual': individual, 'keys': keys, 'int_values': int_values,
+            'individual': individual, 'keys': keys, 'int_values': int_values, 'dtypes': dtypes,
             'index': [int(v) for v in rng.permutation(len(meas)) + 2] if rng.random() < 0.3 else None}
 
 
@@ -925,17 +997,19 @@ def residual_case(ctx, chi, g, k):
     meas, pred = g['meas'], g['pred']
     idcol = [np.nan if r[0] is None else r[0] for r in meas]
     vals = [r[3] for r in meas]
+    dt = g.get('dtypes') or {}
     mdf = pd.DataFrame({keys['id_key']: idcol,
-                        keys['time_key']: pd.Series([np.nan if r[1] is None else r[1] for r in meas],
-                                                    dtype='float64'),
+                        keys['time_key']: num_column([r[1] for r in meas], dt.get('mtime', 'float')),
                         keys['obs_key']: [np.nan if r[2] is None else r[2] for r in meas],
                         keys['value_key']: pd.Series([int(v) for v in vals], dtype='int64') if g.get('int_values')
-                        else pd.Series(vals, dtype='float64')})
+                        else num_column(vals, dt.get('mvalue', 'float'))})
     if g.get('index') is not None:
         mdf.index = g['index']
-    pdf = pd.DataFrame({'T': pd.Series([r[1] for r in pred], dtype='float64'),
+    pdf = pd.DataFrame({'T': num_column([r[1] for r in pred], dt.get('ptime', 'float')),
                         'O': [np.nan if r[0] is None else r[0] for r in pred],
-                        'V': pd.Series([np.nan if r[2] is None else r[2] for r in pred], dtype='float64')})
+                        'V': num_column([r[2] for r in pred], dt.get('pvalue', 'float'))})
+    ctx.branches.add('residual dtype:%s/%s/%s/%s' % (mdf[keys['time_key']].dtype, mdf[keys['value_key']].dtype,
+                                                     pdf['T'].dtype, pdf['V'].dtype))
     # the frames as stored (an ID column with a missing entry turns integers into floats)
     sid = [None if missing(v) else v for v in mdf[keys['id_key']].tolist()]
     smeas = [[sid[j], meas[j][1], meas[j][2], float(meas[j][3])] for j in range(len(meas))]
